@@ -49,7 +49,7 @@ SPEC = {
   'assumptions': [
     'optax is abstract in the theorems (every Tx); the model is run with optax given as the table of calls made by the hand-written loop',
     'step counters are natural numbers (no uint32 wrap-around)',
-    'Welford numerics: float32 accumulation error is not bounded by a theorem; compared with tolerance 1e-4 relative + 1e-5 absolute, exactly on dyadic power-of-two chains',
+    'Welford numerics: float32 accumulation error is not bounded by a theorem; compared with tolerance 1e-4 relative + 1e-5 absolute; on dyadic power-of-two chains count, mean and m2 exactly and std/sem within 2 float32 ULPs',
     'an empty array poisons Welford with NaN (excluded point, exhibited by theorem welford_empty_batch_poisons); Accuracy requires equal leading sizes and a non-empty class axis',
     'TrainState OWG mode: params has exactly the keys params and OWG (any other top-level key is dropped by the code: observation, outside the domain)',
     'MultiMetric member names do not collide with its methods (reset/update/compute)',
@@ -202,6 +202,15 @@ def close(a, b, rel=1e-4, ab=1e-5):
   return abs(a - b) <= ab + rel * max(abs(a), abs(b))
 
 
+def within_ulps(got, want, k):
+  """float32 `got` within k units in the last place of the real number `want`"""
+  g = np.float32(np.asarray(got))
+  w = np.float32(want)
+  if not (np.isfinite(g) and np.isfinite(w)):
+    return bool(np.isnan(g) and np.isnan(w)) or g == w
+  return abs(float(g) - float(want)) <= k * float(np.spacing(np.abs(w))) 
+
+
 def check_average(ctx, drv, cases):
   """cases: list of dict(stream, parts=[sizes,...]) — Average over two partitions of one stream"""
   reqs = []
@@ -345,7 +354,12 @@ def check_welford(ctx, drv, cases):
       wsem = wstd / math.sqrt(n)
       okv = close(gm, mean) and close(gs, wstd) and close(ge, wsem)
       if c.get('exact'):
-        okv = okv and fr(np.asarray(st.mean)) == mean and same_bits(np.asarray(st.standard_deviation), np.sqrt(np.float32(float(var))).astype(np.float32))
+        # dyadic power-of-two chain: count, mean and m2 are exactly representable and must be exact;
+        # std = sqrt(m2 / n) and sem = std / sqrt(n) go through float32 sqrt/div (and m2 / n need not be
+        # representable), so they are allowed 2 float32 ULPs around the correctly rounded value
+        okv = okv and fr(np.asarray(st.mean)) == mean and within_ulps(st.standard_deviation, wstd, 2) and within_ulps(st.standard_error_of_mean, wsem, 2)
+        if hasattr(m, 'count') and hasattr(m, 'm2'):
+          okv = okv and int(np.asarray(m.count.value)) == n and fr(np.asarray(m.m2.value)) == var * n
       if not okv:
         ctx.violation(
           'welford-not-statistic-of-stream',
